@@ -650,6 +650,7 @@ def mutate(spec, rng, seed_tag):
         "drop_match", "dup_match", "foreign_match", "one_side", "null_match",
         "mismatch_clip", "drop_annotation", "add_annotation",
         "split_match", "consistent_delete", "reorder", "dup_event_ref",
+        "swap_event", "swap_event_and_match",
         "number", "clip_times", "task_drop", "task_orphan", "identity",
     ]
     name = rng.choice(ops)
@@ -767,6 +768,34 @@ def mutate(spec, rng, seed_tag):
             rng.choice(free)
         ]
         replace_parent(e, side, pool, parent)
+        return ce_target(i)
+    if name in ("swap_event", "swap_event_and_match") and ces:
+        # replace one annotated / predicted sound event by another one: the
+        # list keeps its length; with the old matches the arrangement is
+        # invalid (one foreign, one missing), with the match redirected too
+        # it is valid again
+        i = rng.choice(ces)
+        e = s["clip_evaluations"][i]
+        side = rng.choice(["annotations", "predictions"])
+        pool = "clip_annotations" if side == "annotations" else "clip_predictions"
+        items = "se_annotations" if side == "annotations" else "se_predictions"
+        mside = "target" if side == "annotations" else "source"
+        parent = dict(s[pool][e[side]])
+        have = list(parent.get("sound_events", []))
+        free = [j for j in range(len(s[items])) if j not in have]
+        if not have or not free:
+            return None
+        pos = rng.randrange(len(have))
+        old, new = have[pos], rng.choice(free)
+        have[pos] = new
+        parent["sound_events"] = have
+        replace_parent(e, side, pool, parent)
+        if name == "swap_event_and_match":
+            for k, j in enumerate(list(e["matches"])):
+                if s["matches"][j].get(mside) == old:
+                    m = dict(s["matches"][j])
+                    m[mside] = new
+                    e["matches"][k] = new_match(m)
         return ce_target(i)
     if name == "split_match" and ces_m:
         i = rng.choice(ces_m)
